@@ -436,11 +436,11 @@ def raw_in_finding_class(body):
 # ------------------------------------------------------------------ tabstops written close to the token before them
 # (added for C06: `box-shadow:${1:inset }${2:hoff} ...` -- a tabstop directly after ANOTHER tabstop, after a #colour, after
 # a string -- was unexplored; gen_alt only glues a field to a keyword or number)
-FIELD_GLUED_AFTER_CALL = False
-"""OFF: a tabstop written directly after the `)` of a call (`x-prop:f(a)${1:x}`) is printed with a blank before it
+FIELD_GLUED_AFTER_CALL = True
+"""ON, listed finding c06:tabstop-directly-after-call: a tabstop written directly after the `)` of a call (`x-prop:f(a)${1:x}`) is printed with a blank before it
 (`x-prop: f(a) ${1:x};`) by the library as it stands, although it keeps `a${1}`, `10px${1}`, `"s"${1}`, `#fff${1}` and
-`${1}${2}` close.  The oracle (read_tokens: GLUE_AFTER) expects "as listed" there too, so the generator class is kept
-off until that is settled."""
+`${1}${2}` close.  The oracle (read_tokens: GLUE_AFTER) expects "as listed" there too, failures of this class are reported under the
+finding's key (c06.listed_class)."""
 GLUED_PLACEHOLDERS = [None, None, 'x', 'a ', 'inset ', 'hoff', '1px', '#000', 'a b', ' b', 'to-x']
 
 
